@@ -20,7 +20,7 @@ SKIP_DIRS = ("amoco/ui/graphics",)
 
 
 class FuncInfo:
-    __slots__ = ("mod", "qual", "node", "cls", "name", "parent")
+    __slots__ = ("mod", "qual", "node", "cls", "name", "parent", "raw")
 
     def __init__(self, mod, qual, node, cls=None, parent=None):
         self.mod = mod
@@ -438,11 +438,33 @@ class Repo:
             return self.modules[rel_or_name]
         raise AnalysisError("anchor module vanished: %s" % rel_or_name)
 
-    def func(self, rel, qual):
+    def func(self, rel, qual, inline=True):
+        """anchor function of a rule.  In the *inlined view* (self.inline_view, switched on by the harness for the second look at a
+        rule that reported or lost its anchor) the returned FuncInfo carries the function with its private same-file helpers
+        expanded in place (vstat.inline) and canonicalised (vstat.canon: definitions resolved, used-once temporaries folded,
+        comparisons written with < / <=): the intraprocedural rules then see through helper extraction.  `raw` is the indexed
+        FuncInfo itself."""
         m = self.mod(rel)
         if qual not in m.functions:
             raise AnalysisError("anchor function vanished: %s::%s" % (rel, qual))
-        return m.functions[qual]
+        f = m.functions[qual]
+        if not inline or not getattr(self, "inline_view", False):
+            return f
+        from .inline import inlined
+
+        from .canon import canonical
+
+        ck = ("canon", f.key)
+        cache = self.__dict__.setdefault("_canon_cache", {}) if hasattr(self, "__dict__") else {}
+        if ck not in cache:
+            cache[ck] = canonical(inlined(self, f))
+        node = cache[ck]
+        import copy as _copy
+
+        g = _copy.copy(f)
+        g.node = node
+        g.raw = f
+        return g
 
 
 def _is_globals_store(tree, call):
